@@ -306,15 +306,30 @@ func (p *Path) u256Get(v Value) *term.T {
 		p.unsupported("uint256.Int object has unexpected shape")
 	}
 	F := p.F
-	return F.Concat(F.Concat(arr.E[3].(*term.T), arr.E[2].(*term.T)), F.Concat(arr.E[1].(*term.T), arr.E[0].(*term.T)))
+	// the 256-bit term these four limbs were split from, if they still are exactly that split
+	key := [4]*term.T{arr.E[0].(*term.T), arr.E[1].(*term.T), arr.E[2].(*term.T), arr.E[3].(*term.T)}
+	if m, ok := p.extra["u256"].(map[[4]*term.T]*term.T); ok {
+		if t, ok := m[key]; ok {
+			return t
+		}
+	}
+	return F.Concat(F.Concat(key[3], key[2]), F.Concat(key[1], key[0]))
 }
 
 func (p *Path) u256Set(v Value, t *term.T) {
 	ptr := v.(*Ptr)
 	arr := &ArrayV{E: make([]Value, 4)}
+	var key [4]*term.T
 	for i := 0; i < 4; i++ {
-		arr.E[i] = p.F.Extract(t, 64*i+63, 64*i)
+		key[i] = p.F.Extract(t, 64*i+63, 64*i)
+		arr.E[i] = key[i]
 	}
+	m, ok := p.extra["u256"].(map[[4]*term.T]*term.T)
+	if !ok {
+		m = map[[4]*term.T]*term.T{}
+		p.extra["u256"] = m
+	}
+	m[key] = t
 	p.store(ptr, arr)
 }
 
@@ -359,6 +374,55 @@ func registerU256Intrinsics(e *Engine) {
 		z := F.BVConst64(0, 512)
 		p.u256Set(a[0], F.Extract(F.Ite(F.Eq(m, z), z, F.BvURem(F.BvMul(x, y), m)), 255, 0))
 		return a[0]
+	})
+	// comparisons and additive arithmetic on the whole 256-bit value (exact; avoids limb-wise borrow chains)
+	note := "uint256.Int.Cmp/Lt/Gt/Eq/IsZero/Add/Sub/AddOverflow/SubOverflow are 256-bit bit-vector operations (limb code not executed)"
+	r("Cmp", func(p *Path, _ *frame, fn *ssa.Function, a []Value, _ ssa.CallInstruction) Value {
+		F := p.F
+		p.stubs[note] = true
+		x, y := p.u256Get(a[0]), p.u256Get(a[1])
+		return F.Ite(F.BvUlt(x, y), F.BVConstI(-1, 64), F.Ite(F.Eq(x, y), F.BVConst64(0, 64), F.BVConst64(1, 64)))
+	})
+	r("Lt", func(p *Path, _ *frame, fn *ssa.Function, a []Value, _ ssa.CallInstruction) Value {
+		p.stubs[note] = true
+		return p.F.BvUlt(p.u256Get(a[0]), p.u256Get(a[1]))
+	})
+	r("Gt", func(p *Path, _ *frame, fn *ssa.Function, a []Value, _ ssa.CallInstruction) Value {
+		p.stubs[note] = true
+		return p.F.BvUlt(p.u256Get(a[1]), p.u256Get(a[0]))
+	})
+	r("Eq", func(p *Path, _ *frame, fn *ssa.Function, a []Value, _ ssa.CallInstruction) Value {
+		p.stubs[note] = true
+		return p.F.Eq(p.u256Get(a[0]), p.u256Get(a[1]))
+	})
+	r("IsZero", func(p *Path, _ *frame, fn *ssa.Function, a []Value, _ ssa.CallInstruction) Value {
+		p.stubs[note] = true
+		return p.F.Eq(p.u256Get(a[0]), p.F.BVConst64(0, 256))
+	})
+	r("Add", func(p *Path, _ *frame, fn *ssa.Function, a []Value, _ ssa.CallInstruction) Value {
+		p.stubs[note] = true
+		p.u256Set(a[0], p.F.BvAdd(p.u256Get(a[1]), p.u256Get(a[2])))
+		return a[0]
+	})
+	r("Sub", func(p *Path, _ *frame, fn *ssa.Function, a []Value, _ ssa.CallInstruction) Value {
+		p.stubs[note] = true
+		p.u256Set(a[0], p.F.BvSub(p.u256Get(a[1]), p.u256Get(a[2])))
+		return a[0]
+	})
+	r("AddOverflow", func(p *Path, _ *frame, fn *ssa.Function, a []Value, _ ssa.CallInstruction) Value {
+		F := p.F
+		p.stubs[note] = true
+		x, y := p.u256Get(a[1]), p.u256Get(a[2])
+		sum := F.BvAdd(x, y)
+		p.u256Set(a[0], sum)
+		return TupleV{a[0], F.BvUlt(sum, x)}
+	})
+	r("SubOverflow", func(p *Path, _ *frame, fn *ssa.Function, a []Value, _ ssa.CallInstruction) Value {
+		F := p.F
+		p.stubs[note] = true
+		x, y := p.u256Get(a[1]), p.u256Get(a[2])
+		p.u256Set(a[0], F.BvSub(x, y))
+		return TupleV{a[0], F.BvUlt(x, y)}
 	})
 	// conversions between math/big (an SMT integer) and uint256 (four limbs)
 	r("SetFromBig", func(p *Path, _ *frame, fn *ssa.Function, a []Value, _ ssa.CallInstruction) Value {
